@@ -160,3 +160,73 @@ func (ev *evaluator) cellValueAt(fr *evalFrame, cell *ssa.Alloc, at *ssa.BasicBl
 func (ev *evaluator) evalAt(fr *evalFrame, v ssa.Value, depth int) (interface{}, bool) {
 	return ev.eval(fr, v, depth)
 }
+
+// cellStoreBefore: the one store whose value a cell certainly holds just before instruction `before` (nil when
+// that cannot be told from the shape of the code alone): the closest store that dominates the point, with no
+// other store to the cell able to come after it and still reach the point.
+func cellStoreBefore(cell *ssa.Alloc, before ssa.Instruction) *ssa.Store {
+	if cell.Referrers() == nil || before.Block() == nil {
+		return nil
+	}
+	at := before.Block()
+	pos := instrIndex(at, before)
+	var stores []*ssa.Store
+	for _, ref := range *cell.Referrers() {
+		switch x := ref.(type) {
+		case *ssa.Store:
+			if x.Addr != ssa.Value(cell) {
+				return nil
+			}
+			stores = append(stores, x)
+		case *ssa.UnOp, *ssa.DebugRef:
+		default:
+			return nil // captured or escaping: someone else may store
+		}
+	}
+	precedes := func(s *ssa.Store) bool {
+		if s.Block() == at {
+			return instrIndex(at, s) < pos
+		}
+		return s.Block().Dominates(at)
+	}
+	after := func(a, b *ssa.Store) bool {
+		if a.Block() == b.Block() {
+			return instrIndex(a.Block(), a) < instrIndex(b.Block(), b)
+		}
+		return a.Block().Dominates(b.Block())
+	}
+	var d *ssa.Store
+	for _, s := range stores {
+		if precedes(s) && (d == nil || after(d, s)) {
+			d = s
+		}
+	}
+	if d == nil {
+		return nil
+	}
+	for _, s := range stores {
+		if s == d || (precedes(s) && after(s, d)) {
+			continue // d itself, or an earlier store d overwrites
+		}
+		if s.Block() == at && instrIndex(at, s) >= pos && !blockReaches(at, at, d.Block()) {
+			continue // stands after the point (and the point is not in a loop that comes back without passing d)
+		}
+		if s.Block() != at && !blockReaches(s.Block(), at, d.Block()) {
+			continue // cannot reach the point without passing d again
+		}
+		if s.Block() == at && instrIndex(at, s) >= pos {
+			// after the point in its own block: matters only if the block can be re-entered without passing d
+			reenter := false
+			for _, succ := range at.Succs {
+				if reachAvoiding(succ, d.Block())[at] {
+					reenter = true
+				}
+			}
+			if !reenter {
+				continue
+			}
+		}
+		return nil
+	}
+	return d
+}
